@@ -1,5 +1,6 @@
 import PebblesVerif.Props.C01
 import PebblesVerif.Props.C01Flat
+import PebblesVerif.Props.C01FlatList
 open PebblesVerif
 #print axioms C01_point_roundtrip_list
 #print axioms C01_point_roundtrip_list_noid
@@ -13,3 +14,9 @@ open PebblesVerif
 #print axioms C01_one_hop
 #print axioms C01_flat_one_hop
 #print axioms C01_flat_one_hop_instance
+#print axioms C01_flat_list_one_hop
+#print axioms C01_flat_list_one_batch
+#print axioms C01_flat_list_no_batch
+#print axioms C01_flat_list_instance
+#print axioms C01_flat_list_instance_dup
+#print axioms C01_flat_list_instance_empty
